@@ -61,6 +61,17 @@ fn plan_lock(p: &mut Planner, flip: bool) -> Value {
         3 => p.bytes(200),
         _ => format!("pw{}", p.below(1000)).into_bytes(),
     };
+    // passwords whose length sits at the decoded iteration count (the "hash at least salt+password once" clamp)
+    // (not in the flip family: once salt+password is longer than the decoded count, the count octet
+    // legitimately stops mattering, so flipping it does not change the derived key)
+    let pw: Vec<u8> = if !flip && jstr(&s2k, "k") == "iterated" && s2k["count"].as_u64().unwrap_or(255) <= 20 && p.chance(1, 3) {
+        let c = s2k["count"].as_u64().unwrap_or(0) as u32;
+        let decoded = ((16 + (c & 15)) << ((c >> 4) + 6)) as usize;
+        let l = decoded.saturating_sub(p.range(0, 12)) + if p.chance(1, 6) { p.range(1, 3) } else { 0 };
+        (0..l).map(|i| b'a' + (i % 23) as u8).collect()
+    } else {
+        pw
+    };
     json!({"key": if flip { *p.pick(&["ed25519-v4","ed25519-v6","p256-v4","edlegacy-v4","ed448-v6"]) } else { *p.pick(&LOCK_KEYS) },
            "which": *p.pick(&["primary","subkey"]), "usage": usage, "aead": *p.pick(&workload::AEADS), "sym": if usage == "aead" { *p.pick(&["aes128","aes192","aes256"]) } else { sym },
            "s2k": s2k, "pw": hex::encode(pw), "store": *p.pick(&["none","binary","armored"]),
@@ -181,8 +192,16 @@ fn run_cycle(plan: &Value, rec: &mut Rec) {
     let sub = jstr(plan, "which") == "subkey";
     let pw_bytes = hex::decode(jstr(plan, "pw")).unwrap_or_default();
     let pw = Password::from(&pw_bytes[..]);
+    // a wrong password that is as close to the right one as possible: last octet changed, one octet
+    // longer or one octet shorter (chosen by the plan)
     let mut wrong = pw_bytes.clone();
-    wrong.push(b'!');
+    match (ju64(plan, "pick") % 3, wrong.len()) {
+        (0, n) if n > 0 => wrong[n - 1] ^= 0x01,
+        (1, n) if n > 1 => {
+            wrong.pop();
+        }
+        _ => wrong.push(b'!'),
+    }
     let wrong_pw = Password::from(&wrong[..]);
     let mut rng = SimRng::new(ju64(plan, "rng_key"), "c08", jbool(plan, "bias"));
     let mut key = pk.secret.clone();
